@@ -31,6 +31,8 @@ SerHs(v) ==
   ELSE EncHs(Normalize(v))
 SerMsg(m) == IF m.t = "ccs" THEN <<1>> ELSE SerHs(m.m)
 SerRecord(r) == EncRecordRaw(r.ct, r.ver, Concat([j \in 1..Len(r.msgs) |-> SerMsg(r.msgs[j])]))
+(* several records written one after the other into the same output: the concatenation of their serializations *)
+SerFlight(rs) == Concat([j \in 1..Len(rs) |-> SerRecord(rs[j])])
 NormMsg(m) == IF m.t = "ccs" THEN m ELSE [t |-> "hs", m |-> Normalize(m.m)]
 
 (* Strict decodability: the bytes parse completely, and re-encoding the parsed value per the RFC gives the same *)
